@@ -1,6 +1,7 @@
 package props
 
 import (
+	"math"
 	"fmt"
 	"testing"
 	"time"
@@ -72,6 +73,16 @@ func runC03(t *testing.T, seed uint64, m *Mask) *Report {
 		n := 1 + r.Intn(7)
 		for j := 0; j < n; j++ {
 			f := &c03Frame{idx: len(frames), sess: s, seq: int32(100*(s+1) + j)}
+			// sequence numbers are int32 on the wire: negative ones and the extremes are as legal as small ones (a
+			// session's counter wraps after 2^31 messages)
+			switch k := r.Intn(12); k {
+			case 0:
+				f.seq = -f.seq
+			case 1:
+				f.seq = math.MinInt32 + f.seq - 100
+			case 2:
+				f.seq = math.MaxInt32 - f.seq + 100
+			}
 			f.tag = fmt.Sprintf("T%x.%d", seed&0xffffff, f.idx)
 			op := &world.Op{Idx: f.idx, Tag: f.tag, Data: world.GenString(r, r.Intn(40), "abcdefghijklmnop"), MetaK: "Mk", MetaV: "v"}
 			ops[f.tag] = op
